@@ -577,7 +577,16 @@ func (h *harness) bigDocs(r *cv.Rand, thorough bool) {
 	h.addDoc([]byte(`{"types":{"A":[{"name":"x","type":"uint256"}]},"primaryType":"A","message":{"x":`+strings.Repeat("9", nd)+`}}`), "big/digits")
 	h.addDoc([]byte(`{"types":{"A":[{"name":"x","type":"uint256"}]},"primaryType":"A","message":{"x":0.`+strings.Repeat("0", 60000)+`}}`), "big/digits")
 	h.addDoc([]byte(`{"types":{"A":[{"name":"x","type":"`+strings.Repeat("[]", 20000)+`"}]},"primaryType":"A","message":{"x":[]}}`), "big/type")
-	h.addDoc([]byte(`{"types":{"A":[{"name":"x","type":"uint8`+strings.Repeat("[]", 3000)+`"}]},"primaryType":"A","message":{"x":`+strings.Repeat("[", 3000)+strings.Repeat("]", 3000)+`}}`), "big/nesting")
+	deep := 300
+	if thorough {
+		deep = 1200
+	}
+	h.addDoc([]byte(`{"types":{"A":[{"name":"x","type":"uint8`+strings.Repeat("[]", deep)+`"}]},"primaryType":"A","message":{"x":`+strings.Repeat("[", deep)+strings.Repeat("]", deep)+`}}`), "big/nesting")
+	// implementation only (the model's string handling is quadratic in the type name): 3000 levels, 60000 digits
+	h.goOnly([]byte(`{"types":{"A":[{"name":"x","type":"uint8`+strings.Repeat("[]", 3000)+`"}]},"primaryType":"A","message":{"x":`+strings.Repeat("[", 3000)+strings.Repeat("]", 3000)+`}}`), "big/go-only")
+	h.goOnly([]byte(`{"types":{"A":[{"name":"x","type":"uint256"}]},"primaryType":"A","message":{"x":`+strings.Repeat("9", 60000)+`}}`), "big/go-only")
+	h.goOnly([]byte(`{"types":{"A":[{"name":"x","type":"uint256"}]},"primaryType":"A","message":{"x":"0x`+strings.Repeat("f", 60000)+`"}}`), "big/go-only")
+	h.goOnly([]byte(`{"types":{"A":[{"name":"x","type":"uint256"}]},"primaryType":"A","message":{"x":1`+strings.Repeat("0", 60000)+`e-60000}}`), "big/go-only")
 	h.addDoc([]byte(`{"types":{"A":[{"name":"x","type":"uint8`+strings.Repeat("[1]", 300)+`"}]},"primaryType":"A","message":{"x":`+strings.Repeat("[", 300)+"7"+strings.Repeat("]", 300)+`}}`), "big/nesting")
 	h.addDoc([]byte(strings.Repeat("[", 20000)+strings.Repeat("]", 20000)), "big/nesting")
 	h.addDoc([]byte(`{"message":`+strings.Repeat(`{"a":`, 9000)+"1"+strings.Repeat("}", 9000)+`}`), "big/nesting")
